@@ -41,7 +41,7 @@ ASSUMPTIONS = ["only the filled part of the data arrays is compared (unwritten "
 BUFS = ["ReplayBuffer", "LAP", "PrioritizedReplayBuffer", "Sub", "SubPER",
         "Multi:ReplayBuffer", "Multi:LAP", "Multi:SubPER"]
 MODS = ["mlp", "gaussian", "layernorm", "doubleq", "sale", "encoder_policy",
-        "ensemble", "tanh_policy", "gaussian_tanh"]
+        "ensemble", "tanh_policy", "gaussian_tanh", "mt_q", "mt_encoder_policy"]
 
 
 def gen_cases(tier, seed):
@@ -317,6 +317,16 @@ def make_module(kind, rng):
             3, 2, space, policy_hidden_nodes=[5], encoder_n_bins=5,
             encoder_zs_dim=4, encoder_za_dim=3, encoder_zsa_dim=4,
             encoder_hidden_nodes=[5], rngs=r), "x3"
+    if kind in ("mt_q", "mt_encoder_policy"):
+        from rl_blox.blox.embedding import task_embedding as te
+        if kind == "mt_q":
+            m = te.MTMLPQNetwork(3, 3, 3, 2, [5], "tanh", r)
+        else:
+            m = te.create_model_based_mt_encoder_and_policy(
+                3, 3, 3, 2, space, policy_hidden_nodes=[5], encoder_n_bins=5,
+                encoder_zs_dim=4, encoder_za_dim=3, encoder_zsa_dim=4,
+                encoder_hidden_nodes=[5], rngs=r)
+        return m, "x3"
     if kind == "ensemble":
         from rl_blox.blox.probabilistic_ensemble import GaussianMLPEnsemble
         return GaussianMLPEnsemble(3, True, 3, 2, [5], "tanh", r), "x3"
